@@ -164,6 +164,11 @@ func outsOracle(d progen.OutsParams, p *progen.Program, res *Result) []string {
 	if res.Err != "" {
 		return []string{"run error: " + res.Err}
 	}
+	if res.State != "complete" && d.Keys >= 2 && d.Keys <= 4 && strings.Contains(res.FatalLog, "Expected map<") {
+		// keys that cannot be file names are refused by output validation of
+		// the producing stage: the model stage broke the documented contract
+		return []string{"unspecified: illegal key refused"}
+	}
 	if res.State != "complete" {
 		return []string{"pipestance ended " + res.State + ": " + res.FatalFq + ": " + firstLine(res.FatalLog)}
 	}
@@ -247,6 +252,9 @@ func evalOuts(d progen.OutsParams) (viol []string, res *Result, note string) {
 	if strings.HasPrefix(res.Err, "invoke:") {
 		return nil, res, "rejected: " + firstLine(res.Err)
 	}
+	if len(viol) == 1 && strings.HasPrefix(viol[0], "unspecified: ") {
+		return nil, res, "key-refused: the producing stage's output validation refuses a map key that is not a legal file name"
+	}
 	if len(viol) > 0 {
 		_, v2 := run()
 		if strings.Join(v2, "\n") != strings.Join(viol, "\n") {
@@ -282,8 +290,8 @@ func OutsCheck() {
 	}
 	fam := progen.OutsFamily(r.Thorough())
 	if !ev.IsWorker() {
-		r.Rule = "top-level pipelines returning each of 12 producer outputs alone (file type with extension, file, arrays and typed maps of files, struct / struct array / typed map of structs holding a file, 2-dimensional file array, string and untyped map holding a path, directory, plain int) and three combinations x collection sizes {2,0,1,11} x leaf modes {file written, null, named but never written, relative symlink, file outside the pipestance} x explicit output names x mapped producer x mapped top-level call x pass-through sub-pipeline " +
-			"(quick: at most 2 of these 6 dimensions off base); each program runs to completion on the real runtime with real files, then VDRKill + PostProcess as mrp does; the outputs record before and after post-processing are walked in parallel by type: valid JSON, same shape, non-file values unchanged, every non-null file leaf recorded at an existing location under outs/ holding exactly the producer's bytes (self-describing content), distinct leaves at distinct locations, file-type extension kept. distinct = distinct parameter vectors; non-trivial = at least one file leaf was materialised"
+		r.Rule = "top-level pipelines returning each of 14 producer outputs alone (file type with extension, file, arrays and typed maps of files, struct / struct array / typed map of structs holding a file, 2-dimensional file array, typed map of file arrays, nested struct with an explicitly named member, string and untyped map holding a path, directory, plain int) and three combinations x collection sizes {2,0,1,11} x leaf modes {file written, null, named but never written, relative symlink, file outside the pipestance} x explicit output names x mapped producer x mapped top-level call x pass-through sub-pipeline " +
+			"(quick: at most 3 of these 6 dimensions off base) + 5 kinds of colliding output names + 5 map-key styles; each program runs to completion on the real runtime with real files, then VDRKill + PostProcess as mrp does; the outputs record before and after post-processing are walked in parallel by type: valid JSON, same shape, non-file values unchanged, every non-null file leaf recorded at an existing location under outs/ holding exactly the producer's bytes (self-describing content), distinct leaves at distinct locations, file-type extension kept. distinct = distinct parameter vectors; non-trivial = at least one file leaf was materialised"
 		r.Set("programs_in_family", len(fam))
 		r.RunWorkers(0)
 		r.Assume("for symlinked outputs and outputs outside the pipestance any recorded location that resolves to the producer's bytes is accepted")
